@@ -1626,6 +1626,25 @@ MA('C11', 'osmlem normalises the data in place', 'odl/solvers/iterative/statisti
 MA('C11', 'landweber accumulates the residual in the right-hand side', ITERF,
    'landweber', 'tmp_ran -= rhs', 'rhs -= tmp_ran\ntmp_ran.lincomb(-1, rhs)',
    'R2i')
+MA('C19', 'helix centred around zero instead of the volume', CONEF,
+   'helical_geometry', 'offset_along_axis = space.partition.min_pt[2]',
+   'offset_along_axis = -space.partition.extent[2] / 2', 'R5z')
+MA('C19', 'spherical detector aligns the second axis from its initial position', DETF,
+   'SphericalDetector.__init__',
+   'r2 = rotation_matrix_from_to(np.matmul(r1, initial_axes[1]), axes[1])',
+   'r2 = rotation_matrix_from_to(initial_axes[1], axes[1])', 'R1b')
+MA('C19', 'cylindrical detector composes the alignment rotations in the wrong order', DETF,
+   'CylindricalDetector.__init__',
+   'self.__rotation_matrix = np.matmul(r2, r1)',
+   'self.__rotation_matrix = np.matmul(r1, r2)', 'R1b')
+MA('C04', 'vector * functional writes out before evaluating the functional', OPR,
+   'FunctionalLeftVectorMult._call', 'out.lincomb(scalar, self.vector)',
+   'out.assign(self.vector)\nout *= self.functional(x)', 'R3a')
+MA('C04', 'functional composition flagged linear by the functional alone', FUNF,
+   'FunctionalComp.__init__',
+   'Functional.__init__(self, space=op.domain, linear=func.is_linear and op.is_linear, grad_lipschitz=np.nan)',
+   'Functional.__init__(self, space=op.domain, linear=func.is_linear, grad_lipschitz=np.nan)',
+   'R2')
 M('C15', 'element from a callable no longer owns its data (regression)', 'odl/discr/discr_space.py',
   "                sampled = np.array(sampled, copy=True)",
   "                pass", 'C15-R4c')
